@@ -135,6 +135,13 @@ func Produce(plan Plan, hooks Hooks) *History {
 				}
 				blk.Txs = append(blk.Txs, bz)
 				blk.Desc = append(blk.Desc, spec.Desc)
+				basicInvalid := false
+				for _, m := range spec.Msgs {
+					if m.ValidateBasic() != nil {
+						basicInvalid = true
+					}
+				}
+				blk.BasicInvalid = append(blk.BasicInvalid, basicInvalid)
 				res.Txs = append(res.Txs, r)
 				cls := "ok"
 				if r.Code != 0 {
